@@ -135,13 +135,14 @@ def check(ctx):
     g = C.guards(tb)
     calls = [n for n in C.walk(tb) if n["kind"] == "CallExpr" and C.callee_name(n) == "_test_bond"]
     need = [("(a>=0)", True), ("(c<n_residues)", True), ("(chain_ids[a]==chain_ids[c])", True), ("(d>=0)", True), ("(f<n_residues)", True), ("(chain_ids[d]==chain_ids[f])", True)]
-    bad = [C.line(c) for c in calls if not all(x in g.get(c["id"], []) for x in need)]
+    need = [C.canon_fact(x) for x in need]
+    bad = [C.line(c) for c in calls if not all(x in C.canon_facts(g.get(c["id"], [])) for x in need)]
     ctx.decide(bool(calls) and not bad, "C15-R3", C.line(tb), DC, "_residue_test_bridge", "every H-bond test of a bridge is under the bounds and same-chain tests of both strands (%d tests)" % len(calls), "",
                "_test_bond calls at lines %s are not dominated by the i+-1 bounds and chain-continuity tests" % bad)
     # chain_ids[a] accessed after a >= 0 etc.
     for nm, lo in (("a", "(a>=0)"), ("c", "(c<n_residues)"), ("d", "(d>=0)"), ("f", "(f<n_residues)")):
         acc = [n for n in C.walk(tb) if n["kind"] == "ArraySubscriptExpr" and C.ref_name(C.kids(n)[0]) == "chain_ids" and C.text(C.kids(n)[1]) == nm]
-        ok = bool(acc) and all((lo, True) in g.get(n["id"], []) for n in acc)
+        ok = bool(acc) and all(C.canon_fact((lo, True)) in C.canon_facts(g.get(n["id"], [])) for n in acc)
         ctx.decide(ok, "C15-R3", C.line(acc[0]) if acc else C.line(tb), DC, "_residue_test_bridge", "chain_ids[%s] read after %s" % (nm, lo), "", "chain_ids[%s] is read before its bounds test" % nm)
     # helix: _test_bond(i+stride, i) under (i+stride) < n_residues ... and chain equality required in the same condition
     hl = [n for n in C.walk(ah) if n["kind"] == "IfStmt" and "_test_bond(" in C.text(C.kids(n)[0])]
